@@ -1,21 +1,31 @@
 /-
-C05 for FFSP.  Positive part: at every decision the mask offers *exactly* the jobs that are in the
-current stage and whose previous operation is completed by the current time — completion exactly *at*
-the current time included (`mask_iff_available`).  Negative part (known finding): the wait action is
-offered only while some job has not completed the previous stage, so an idle machine must take an
-available job; the schedules reachable through the mask are the class `Spec.Ffsp.expressible`
-(validated exhaustively against the real env on tiny instances by the C05 unit), and the optimum can
-lie outside it: `opt_reachable_statement` is refuted by a 1-stage, 2-machine, 2-job instance on which
-*every* mask-confined episode, under either machine permutation, has makespan 3 while running both
-jobs on the fast machine gives 2.
+C05 for FFSP.
+(1) Per decision the mask offers *exactly* the jobs that are in the current stage and whose previous
+    operation is completed by the current time — completion exactly *at* the current time included
+    (`mask_iff_available`).
+(2) **The set of schedules reachable through the mask is exactly the declarative class
+    `Spec.Ffsp.Expressible`** (at an idle machine with an available job the sweep must start a job unless
+    some job has not yet completed the previous stage): `episode_expressible` (every finished
+    mask-confined episode's schedule is valid and expressible) and `expressible_reachable` (every valid
+    expressible schedule is the schedule of some finished mask-confined episode), for ALL instances with
+    durations ≥ 0 and a bijective machine permutation (true of every `IndexTables` row).  Hence the
+    rewards reachable through the mask are exactly the negated makespans of the valid expressible
+    schedules (`reachable_rewards_eq`), and the best reward through the mask equals minus the optimum
+    over that class (`best_reward_is_expressible_optimum`).
+(3) Negative part (known finding): the class is a proper subclass of the valid schedules and the optimum
+    can lie outside it: `opt_reachable_statement` ("as good as any valid schedule") is refuted by a
+    1-stage, 2-machine, 2-job instance on which *every* mask-confined episode, under either machine
+    permutation, has makespan 3 while running both jobs on the fast machine gives 2.
 -/
 import Rl4co.Props.C03.Ffsp
+import Rl4co.Proofs.FfspComplete
+import Rl4co.Proofs.FfspTables
 namespace Rl4co.Ffsp
 open Rl4co.Spec.Ffsp
 
 /-- 1 stage, 2 machines (machine 0 fast, machine 1 slow), 2 jobs -/
 def hid (swap : Bool) : Inst :=
-  ⟨1, 2, 2, fun _ m => if m = 0 then 1 else 3, fun p => if swap then 1 - p else p⟩
+  ⟨1, 2, 2, fun _ m => if m = 0 then 1 else 3, fun p => if swap then 1 - p else p, true⟩
 
 /-- both jobs one after the other on the fast machine: a valid schedule of makespan 2 -/
 def hidOpt : List Op := [⟨0, 0, 0⟩, ⟨1, 0, 1⟩]
@@ -107,10 +117,6 @@ theorem optimum_hidden (b : Bool) (as : List Nat) (s : State)
 
 /-! ### The mask offers exactly the available jobs -/
 
-/-- a job that is still being processed finishes exactly `jwait` time units from now -/
-def JExact (i : Inst) (s : State) : Prop := ∀ j, j < i.J → 0 < s.jwait j →
-  ∃ m, s.sched m j ≠ UNSET ∧ s.sched m j + (i.dur j m : Int) = (s.time : Int) + (s.jwait j : Int)
-
 theorem jexact_advance (i : Inst) (s : State) (e : JExact i s) : JExact i (advance i s) := by
   intro j hj hp
   by_cases hw : s.sub + 1 = MT i
@@ -189,5 +195,121 @@ theorem mask_iff_available (i : Inst) (h : WF i) {s : State} (hr : Reach envM i 
 /-- Non-vacuity: on `hid false` both jobs are offered at reset (and the wait action is not). -/
 example : (reset (hid false)).mask 0 = true ∧ (reset (hid false)).mask 1 = true ∧
     (reset (hid false)).mask 2 = false := by decide
+
+
+/-! ### Reachable through the mask = expressible -/
+
+/-- bijectivity of the machine permutation -/
+def PermBij (i : Inst) : Prop := PermInj i ∧ PermSurj i
+
+theorem ofMatrix_congr (i : Inst) {σ τ : Nat → Nat → Int}
+    (h : ∀ m j, m < MT i → j < i.J → σ m j = τ m j) : ∀ o, o ∈ ofMatrix i σ ↔ o ∈ ofMatrix i τ := by
+  intro o
+  rw [mem_ofMatrix, mem_ofMatrix]
+  constructor
+  · rintro ⟨h1, h2, h3, h4⟩
+    exact ⟨h1, h2, by rw [← h _ _ h1 h2]; exact h3, by rw [← h _ _ h1 h2]; exact h4⟩
+  · rintro ⟨h1, h2, h3, h4⟩
+    exact ⟨h1, h2, by rw [h _ _ h1 h2]; exact h3, by rw [h _ _ h1 h2]; exact h4⟩
+
+theorem ofMatrix_eq (i : Inst) {σ τ : Nat → Nat → Int}
+    (h : ∀ m j, m < MT i → j < i.J → σ m j = τ m j) : ofMatrix i σ = ofMatrix i τ := by
+  unfold ofMatrix
+  have key : ∀ n, n ≤ MT i →
+      (List.range n).flatMap (fun m =>
+        ((List.range i.J).filter (fun j => σ m j != UNSET)).map (fun j => (⟨j, m, σ m j⟩ : Op))) =
+      (List.range n).flatMap (fun m =>
+        ((List.range i.J).filter (fun j => τ m j != UNSET)).map (fun j => (⟨j, m, τ m j⟩ : Op))) := by
+    intro n
+    induction n with
+    | zero => intro _; rfl
+    | succ n ih =>
+      intro hle
+      rw [List.range_succ, List.flatMap_append, List.flatMap_append, ih (by omega)]
+      congr 1
+      simp only [List.flatMap_cons, List.flatMap_nil, List.append_nil]
+      have hf : (List.range i.J).filter (fun j => σ n j != UNSET) =
+          (List.range i.J).filter (fun j => τ n j != UNSET) :=
+        List.filter_congr (fun j hj => by rw [h n j (by omega) (List.mem_range.mp hj)])
+      rw [hf]
+      apply List.map_congr_left
+      intro j hj
+      rw [h n j (by omega) (List.mem_range.mp (List.mem_filter.mp hj).1)]
+  exact key _ (Nat.le_refl _)
+
+/-- **C05 (FFSP): the mask reaches exactly the expressible schedules.**  A schedule matrix `σ` is the
+schedule of some finished mask-confined episode iff its operation list is valid and expressible. -/
+theorem reachable_iff_expressible (i : Inst) (h : WF i) (hb : PermBij i) (σ : Nat → Nat → Int) :
+    (∃ as s, RunND env i (env.reset i) as s ∧ s.done = true ∧
+        ∀ m j, m < MT i → j < i.J → s.sched m j = σ m j) ↔
+    (Valid i (ofMatrix i σ) ∧ Expressible i (ofMatrix i σ)) := by
+  constructor
+  · rintro ⟨as, s, hr, hd, hag⟩
+    have hv := schedule_valid i h hr hd
+    have he := episode_expressible i h hb.1 hr hd
+    have hlist : ofMatrix i s.sched = ofMatrix i σ := ofMatrix_eq i hag
+    rw [← hlist]; exact ⟨hv, he⟩
+  · rintro ⟨hv, he⟩
+    exact expressible_reachable i h hb.1 hb.2 σ hv he
+
+/-- **The rewards reachable through the mask are exactly the negated makespans of the valid expressible
+schedules.** -/
+theorem reachable_rewards_eq (i : Inst) (h : WF i) (hb : PermBij i) (v : Int) :
+    (∃ as s, RunND env i (env.reset i) as s ∧ s.done = true ∧ s.reward = some (-v)) ↔
+    (∃ σ : Nat → Nat → Int, Valid i (ofMatrix i σ) ∧ Expressible i (ofMatrix i σ) ∧
+        makespan i (ofMatrix i σ) = v) := by
+  constructor
+  · rintro ⟨as, s, hr, hd, hrw⟩
+    refine ⟨s.sched, schedule_valid i h hr hd, episode_expressible i h hb.1 hr hd, ?_⟩
+    have := (reward_eq_makespan i h hr hd).1
+    rw [hrw] at this
+    injection this with this; omega
+  · rintro ⟨σ, hv, he, hmk⟩
+    obtain ⟨as, s, hr, hd, hag⟩ := expressible_reachable i h hb.1 hb.2 σ hv he
+    refine ⟨as, s, hr, hd, ?_⟩
+    have hrw := (reward_eq_makespan i h hr hd).1
+    have hlist : ofMatrix i s.sched = ofMatrix i σ := ofMatrix_eq i hag
+    rw [hrw, hlist, hmk]
+
+/-- **Best reward through the mask = −(optimum over the expressible class)**, as an `∃ … ∧ ∀ …`
+statement: `r` is attained by a finished mask-confined episode and no episode does better, iff `−r` is the
+makespan of a valid expressible schedule and no valid expressible schedule has a smaller one. -/
+theorem best_reward_is_expressible_optimum (i : Inst) (h : WF i) (hb : PermBij i) (r : Int) :
+    ((∃ as s, RunND env i (env.reset i) as s ∧ s.done = true ∧ s.reward = some r) ∧
+      (∀ as s r', RunND env i (env.reset i) as s → s.done = true → s.reward = some r' → r' ≤ r)) ↔
+    ((∃ σ : Nat → Nat → Int, Valid i (ofMatrix i σ) ∧ Expressible i (ofMatrix i σ) ∧
+        makespan i (ofMatrix i σ) = -r) ∧
+      (∀ σ : Nat → Nat → Int, Valid i (ofMatrix i σ) → Expressible i (ofMatrix i σ) →
+        -r ≤ makespan i (ofMatrix i σ))) := by
+  have key := reachable_rewards_eq i h hb
+  constructor
+  · rintro ⟨⟨as, s, hr, hd, hrw⟩, hbest⟩
+    refine ⟨(key (-r)).mp ⟨as, s, hr, hd, by simpa using hrw⟩, ?_⟩
+    intro σ hv he
+    obtain ⟨as', s', hr', hd', hrw'⟩ := (key (makespan i (ofMatrix i σ))).mpr ⟨σ, hv, he, rfl⟩
+    have := hbest as' s' _ hr' hd' hrw'
+    omega
+  · rintro ⟨hex, hall⟩
+    obtain ⟨as, s, hr, hd, hrw⟩ := (key (-r)).mpr hex
+    refine ⟨⟨as, s, hr, hd, by simpa using hrw⟩, ?_⟩
+    intro as' s' r' hr' hd' hrw'
+    obtain ⟨σ, hv, he, hmk⟩ := (key (-r')).mp ⟨as', s', hr', hd', by simpa using hrw'⟩
+    have := hall σ hv he
+    omega
+
+/-- every row of a batch is stepped with a bijective machine permutation (`IndexTables`), so the three
+theorems above apply to every row inside the permutation table -/
+theorem rowInst_permBij (tb : Tables) (S J : Nat) (flat : Bool) (dur : Nat → Nat → Nat) (row : Nat)
+    (hrow : pomoIdx tb.bs row < fact tb.M) : PermBij (rowInst tb S J flat dur row) :=
+  ⟨tables_perm_inj tb row hrow, tables_perm_surj tb row hrow⟩
+
+/-- Non-vacuity: on the witness instance the expressible class is non-empty and misses the optimum — the
+schedule of the episode `[0, 1]` is valid and expressible with makespan 3, `hidOpt` (makespan 2) is valid
+but not expressible. -/
+example : valid (hid false) (ofMatrix (hid false) (exec env (hid false) (reset (hid false)) [0, 1]).sched) = true ∧
+    expressible (hid false) (ofMatrix (hid false) (exec env (hid false) (reset (hid false)) [0, 1]).sched) = true ∧
+    expressible (hid false) hidOpt = false := by decide
+example : PermBij (hid false) :=
+  ⟨fun _ _ _ _ he => he, fun y hy => ⟨y, hy, rfl⟩⟩
 
 end Rl4co.Ffsp
